@@ -405,6 +405,18 @@ pub fn sequence(t: i32, r: &mut Rng, c: &Cfg, min_n: usize, max_n: usize, varian
         // there; the first ring of a shape feeds its box)
         return (0..n).map(|_| with_empty_parts(&shape(t, r, c), r)).collect();
     }
+    if variant % 23 == 6 && is_polygon(t) {
+        // polygons that did not come out of a ring constructor: converted from a polyline of the
+        // same dimension (`From<GenericPolyline>` keeps the parts as they are: open rings, any order)
+        return (0..n)
+            .map(|_| match shape(t - 2, r, c) {
+                Shape::Polyline(l) => Shape::Polygon(Polygon::from(l)),
+                Shape::PolylineM(l) => Shape::PolygonM(PolygonM::from(l)),
+                Shape::PolylineZ(l) => Shape::PolygonZ(PolygonZ::from(l)),
+                other => other,
+            })
+            .collect();
+    }
     if variant % 7 == 3 {
         let parts = r.usize_in(1, c.max_parts.max(1));
         let len = r.usize_in(1, c.max_len.max(1));
